@@ -1,16 +1,16 @@
 INIT Init
 NEXT Next
 CONSTANTS
-  MaxCoord = 2
-  FeatStrands = {"+"}
-  QStrands = {"."}
-  NContigs = 1
-  MemoCap = 4
+  MaxCoord = 1
+  FeatStrands = {"+","-"}
+  QStrands = {".","+","-"}
+  NContigs = 2
+  MemoCap = 2
   MaxFeat = 3
   MaxSorts = 2
-  MaxQueries = 2
+  MaxQueries = 3
   BetweenOn = TRUE
-  AnnotLevel = 1
+  AnnotLevel = 0
   UnsortedQueries = TRUE
   TrackHist = FALSE
   Variant = "design"
